@@ -39,6 +39,10 @@ type Target struct {
 	// GoImports: imports those expressions need.
 	GoArgs    map[string]string `json:"go_args,omitempty"`
 	GoImports []string          `json:"go_imports,omitempty"`
+	// Limits: per protocol token of the execution path (receiver fields, parameters, externs, in
+	// that order) an inclusive upper bound for generated integer arguments (0 = none): keeps
+	// trans-diff away from arguments that make the real code allocate gigabytes.
+	Limits []uint64 `json:"limits,omitempty"`
 	// NoDiff: no trans-diff for this target (say why in Note).
 	NoDiff bool   `json:"nodiff,omitempty"`
 	Note   string `json:"note,omitempty"`
